@@ -1,18 +1,18 @@
 CONSTANTS
-  FlowSet = {"flows/a.yaml", "flows/b.yaml", "flows/c.yaml"}
+  FlowSet = {"flows/a.yaml", "flows/b.yaml"}
   Endpoints = {"configuration", "apply_flows"}
-  Methods = {"PUT"}
-  MaxNth = 4
+  Methods = {"PUT", "POST"}
+  MaxNth = 6
   WithBadB64 = TRUE
-  GwOld = {"none"}
-  AnchorFlows = {"flows/a.yaml"}
+  GwOld = {"none", "g1"}
+  AnchorFlows = {}
   Paths <- PathsMC
   Cat <- CatMC
-  Txns = {1}
+  Txns = {}
   RestoreWrongDirection = FALSE
   PublishBeforeInit = FALSE
   ContinueAfter405 = FALSE
   ApplyNoBackup = FALSE
 SPECIFICATION SpecMC
-INVARIANTS DiskAtomic BehavAtomic NeverHalf OneConfig
+INVARIANT Emit
 CHECK_DEADLOCK FALSE
